@@ -6,6 +6,7 @@
   occurs.
 -/
 import Jqawk.Lemmas.Invariant
+import Jqawk.Lemmas.DriverInvariant
 import Jqawk.Model.Driver
 import Jqawk.Lemmas.ParserScope
 import Jqawk.Lemmas.ParserWF
@@ -217,5 +218,23 @@ example : Parser.assignable (.lit ⟨.num, 2, b!"1"⟩) = false := rfl
 theorem parsed_nodes_ok (src : Bytes) (p : Program)
     (h : parseProgramSrc expectedRuleTable src = .ok p) : ∀ e ∈ p.subExprs, e.nodeOK = true :=
   Program.nodeOK_of_wfB p (parse_wf src p h)
+
+/-- **Runtime faults are never swallowed, at the level of the whole run.**  For every program,
+    selector list and input: if the run ends successfully (or with a JSON input error) then no
+    runtime fault was ever raised during it — in a rule, a pattern, a function, a match body or a
+    selector —; if it ends in a runtime error then exactly one fault was raised and NOTHING was
+    printed after it (the output at the end is the output at the moment of the fault). -/
+theorem run_fault_discipline (prog : Program) (src : Bytes) (tbl : RuleTable) (sels : List Bytes)
+    (files : List InputFile) (st : St)
+    (hst : (runProgram prog src tbl sels files).st = some st) :
+    match (runProgram prog src tbl sels files).outcome with
+    | .ok => st.faults = 0
+    | .jsonErr _ => st.faults = 0
+    | .runtimeErr _ _ _ => st.faults = 1 ∧ st.faultOut = st.out.length
+    | _ => True := by
+  have h := (runProgram_good prog src tbl sels files st hst).2
+  have s0f : (newEvaluator prog Heap.empty [] 0).faults = 0 := rfl
+  revert h
+  cases (runProgram prog src tbl sels files).outcome <;> simp [faultsOK, s0f]
 
 end Jqawk.C11
